@@ -6,8 +6,9 @@ set -u
 id=$1; tier=${2:-quick}; shift; shift || true
 dir=/verif/h/$(echo "$id" | tr 'A-Z' 'a-z')
 [ -d "$dir" ] || { echo "no such check $id"; exit 2; }
-work=/verif/.work/$id
-mkdir -p "$work" /verif/.bin /verif/evidence
+OUT=${VERIF_OUT:-/verif}
+work=$OUT/.work/$id
+mkdir -p "$work" $OUT/.bin $OUT/evidence
 /verif/scripts/genmod.sh || { echo "ENGINE-ERROR: go.mod generation failed"; exit 2; }
 if [ ! -x /verif/.bin/vinstr ] || [ /verif/engine/vinstr/main.go -nt /verif/.bin/vinstr ]; then
   (cd /verif/engine/vinstr && go build -o /verif/.bin/vinstr .) || { echo "ENGINE-ERROR: vinstr build failed"; exit 2; }
@@ -17,11 +18,12 @@ INSTR=(); NOSTMT=0; STMTFUNCS=""; EXTRA_REPLACE=()
 MODCACHE=$(go env GOMODCACHE)
 args=(-work "$work" -repo "$REPO" -modcache "$MODCACHE")
 [ "$NOSTMT" = 1 ] && args+=(-nostmt)
+[ -n "${VERIF_PATCHED:-}" ] && args+=(-patched "$VERIF_PATCHED")
 [ -n "$STMTFUNCS" ] && args+=(-stmtfuncs "$STMTFUNCS")
 for f in "${INSTR[@]}"; do f=${f//@MODCACHE@/$MODCACHE}; args+=(-instr "$f"); done
 for r in "${EXTRA_REPLACE[@]}"; do r=${r//@MODCACHE@/$MODCACHE}; args+=(-replace "$r"); done
 /verif/.bin/vinstr "${args[@]}" || { echo "ENGINE-ERROR: instrumentation failed"; exit 2; }
-bin=/verif/.bin/$id
+bin=$OUT/.bin/$id
 (cd /verif/h && go build -tags verif -overlay "$work/overlay.json" -o "$bin" ./$(basename $dir)) > "$work/build.log" 2>&1
 if [ $? -ne 0 ]; then
   cat "$work/build.log" | tail -40
